@@ -38,6 +38,8 @@ def build_cases(ck):
     cases += jgen.scope_cases(ck.seed * 7919 + 4, 250 if quick else 5000, start_id=len(cases) + 1)
     cases += jgen.random_cases(ck.seed * 7919 + 5, 60 if quick else 1500, start_id=len(cases) + 1, size=10,
                                features=("loopcontrols", "recursive"))
+    cases += jgen.random_cases(ck.seed * 7919 + 6, 80 if quick else 2000, start_id=len(cases) + 1, size=8,
+                               features=("loopcontrols", "stateful"))
     return cases, n0
 
 
